@@ -50,6 +50,7 @@ type UCCase struct {
 }
 
 type Case struct {
+	ErrStyle string `json:"err_style,omitempty"` // how the storage words its own refusals (vkit.Store.refuse)
 	Kind       string         `json:"kind"` // history | usercode
 	Router     string         `json:"router,omitempty"`
 	IssuerMode string         `json:"issuer_mode,omitempty"`
@@ -130,6 +131,15 @@ func genScopes(t *rapid.T) []string {
 }
 
 func genCase(t *rapid.T) Case {
+	c := genCase0(t)
+	// drawn last so that the rest of the case does not depend on it
+	if rapid.Bool().Draw(t, "errstyled") {
+		c.ErrStyle = rapid.SampledFrom(vkit.ErrStyles).Draw(t, "errstyle")
+	}
+	return c
+}
+
+func genCase0(t *rapid.T) Case {
 	c := Case{Kind: "history"}
 	c.Router = rapid.SampledFrom([]string{"provider", "legacy"}).Draw(t, "router")
 	genIssuer(t, &c)
@@ -458,7 +468,7 @@ func runHistory(c Case, res *vkit.Result) {
 	for i, cc := range c.Clients {
 		w.specs = append(w.specs, clientSpec(i, cc))
 	}
-	w.st = vkit.NewStore(w.specs, vkit.SignKeySpec{KeyName: "p256a", Alg: "ES256", KID: "sig1"}, vkit.StorePolicy{})
+	w.st = vkit.NewStore(w.specs, vkit.SignKeySpec{KeyName: "p256a", Alg: "ES256", KID: "sig1"}, vkit.StorePolicy{ErrStyle: c.ErrStyle})
 	spec := vkit.DefaultProviderSpec(c.Router)
 	spec.IssuerMode, spec.Issuer, spec.Insecure = c.IssuerMode, c.Issuer, c.Insecure
 	spec.Device = c.Device
